@@ -325,13 +325,16 @@ package apd
 
 //@ axiom pow10_add(a: int, b: int): a >= 0 && b >= 0 ==> pow10(a + b) == pow10(a) * pow10(b)
 
+//@ axiom div_lt(a: int, b: int, k: int): b > 0 && a < k * b ==> div(a, b) < k
+//@ axiom div_ge(a: int, b: int, k: int): b > 0 && a >= k * b ==> div(a, b) >= k
+
 //@ define dsign(x: *Decimal): int = ite(x.Form == Finite && val(x.Coeff) == 0, 0, ite(x.Negative, -1, 1))
 //@ define cmpmag(Cd: int, Ed: int, Cx: int, Ex: int): int = sgn(Cd * pow10(Ed - min(Ed, Ex)) - Cx * pow10(Ex - min(Ed, Ex)))
 //@ define cmpsigned(d: *Decimal, x: *Decimal): int = ite(dsign(d) != dsign(x), sgn(dsign(d) - dsign(x)), ite(dsign(d) == 0, 0, ite(d.Form == Infinite, ite(x.Form == Infinite, 0, dsign(d)), ite(x.Form == Infinite, -dsign(d), dsign(d) * cmpmag(val(d.Coeff), d.Exponent, val(x.Coeff), x.Exponent)))))
 
 //@ func (*Decimal).Cmp
 //@   props C15 C01
-//@   requires val(d.Coeff) >= 0 && val(x.Coeff) >= 0
+//@   requires inv(d) && inv(x)
 //@   pure
 //@   hint pow10_add(nd10(val(d.Coeff)), d.Exponent - min(d.Exponent, x.Exponent))
 //@   hint pow10_add(nd10(val(d.Coeff)) - 1, d.Exponent - min(d.Exponent, x.Exponent))
@@ -360,5 +363,46 @@ package apd
 //@   assigns d.Coeff, d.Exponent, d.Form
 //@   loop 1 invariant #i >= -1 && (#i < len(xs) || #i == -1) && sum == sumupto(xs, #i + 1) && nobadupto(xs, #i + 1)
 //@   loop 1 decreases len(xs) - #i
+//@   ensures [inv] (d.Form == old(d.Form) || d.Form == Infinite) && val(d.Coeff) >= 0
 //@   ensures [sys] syscode(xs, sumupto(xs, len(xs)) + nd10(old(val(d.Coeff))) - 1) != 0 ==> (ret == syscode(xs, sumupto(xs, len(xs)) + nd10(old(val(d.Coeff))) - 1) && unchanged(d))
 //@   ensures [main] ctxsane(c) && syscode(xs, sumupto(xs, len(xs)) + nd10(old(val(d.Coeff))) - 1) == 0 ==> SEmain(c, old(d.Form), old(d.Negative), old(val(d.Coeff)), sumupto(xs, len(xs)), sumupto(xs, len(xs)) + nd10(old(val(d.Coeff))) - 1, res, d, ret)
+
+// ---------------------------------------------------------------- the rounding oracle (C01/C02/C07), written from the property text
+// exact value: (-1)^neg * C * 10^E, C >= 0.  RND = coefficient after discarding sh digits in mode m.
+
+//@ define RQ(C: int, sh: int): int = div(C, pow10(sh))
+//@ define RR(C: int, sh: int): int = mod(C, pow10(sh))
+//@ define RND(m: rounder, neg: bool, C: int, sh: int): int = RQ(C, sh) + ite(RR(C, sh) != 0 && incr(m, neg, RQ(C, sh), sgn(2 * RR(C, sh) - pow10(sh))), 1, 0)
+//@ define NSH(c: *Context, C: int): int = max(nd10(C) - c.Precision, 0)
+//@ define NQ2(c: *Context, neg: bool, C: int): int = RND(c.Rounding, neg, C, NSH(c, C))
+//@ define NCARRY(c: *Context, neg: bool, C: int): int = ite(NQ2(c, neg, C) == pow10(c.Precision), 1, 0)
+//@ define NCOEF(c: *Context, neg: bool, C: int): int = ite(NCARRY(c, neg, C) == 1, pow10(c.Precision - 1), NQ2(c, neg, C))
+//@ define NEXP(c: *Context, neg: bool, C: int, E: int): int = E + NSH(c, C) + NCARRY(c, neg, C)
+//@ define NADJ(c: *Context, neg: bool, C: int, E: int): int = NEXP(c, neg, C, E) + nd10(NCOEF(c, neg, C)) - 1
+//@ define NSYS(c: *Context, neg: bool, C: int, E: int): bool = NSH(c, C) + NCARRY(c, neg, C) > 100000 || NADJ(c, neg, C, E) > 100000
+//@ define SSH(c: *Context, E: int): int = max(etiny(c) - E, 0)
+
+//@ define RZero(c: *Context, neg: bool, E: int, d: *Decimal, ret: cond): bool = d.Form == Finite && val(d.Coeff) == 0 && d.Negative == neg && d.Exponent == ite(E < etiny(c), etiny(c), ite(E > c.MaxExponent, c.MaxExponent, E)) && only(ret, Clamped | Rounded)
+//@ define RSub(c: *Context, neg: bool, C: int, E: int, d: *Decimal, ret: cond): bool = d.Form == Finite && d.Negative == neg && val(d.Coeff) == RND(c.Rounding, neg, C, SSH(c, E)) && d.Exponent == max(E, etiny(c)) && has(ret, Subnormal) && (has(ret, Inexact) <==> RR(C, SSH(c, E)) != 0) && (has(ret, Underflow) <==> RR(C, SSH(c, E)) != 0) && (has(ret, Inexact) ==> has(ret, Rounded)) && only(ret, Subnormal | Inexact | Underflow | Rounded | Clamped)
+//@ define ROvf(neg: bool, d: *Decimal, ret: cond): bool = d.Form == Infinite && d.Negative == neg && has(ret, Overflow) && has(ret, Inexact) && only(ret, Overflow | Inexact | Rounded)
+//@ define RNorm(c: *Context, neg: bool, C: int, E: int, d: *Decimal, ret: cond): bool = d.Form == Finite && d.Negative == neg && val(d.Coeff) == NCOEF(c, neg, C) && d.Exponent == NEXP(c, neg, C, E) && (has(ret, Inexact) <==> RR(C, NSH(c, C)) != 0) && (has(ret, Inexact) ==> has(ret, Rounded)) && only(ret, Inexact | Rounded)
+
+// Rounded: d and ret are the exact value (-1)^neg*C*10^E rounded once to context c (Precision >= 1).
+//@ define Rounded(c: *Context, neg: bool, C: int, E: int, d: *Decimal, ret: cond): bool = ite(C == 0, RZero(c, neg, E, d, ret), ite(E + nd10(C) - 1 < c.MinExponent, RSub(c, neg, C, E, d, ret), ite(NSYS(c, neg, C, E), has(ret, SystemOverflow), ite(NADJ(c, neg, C, E) > c.MaxExponent, ROvf(neg, d, ret), RNorm(c, neg, C, E, d, ret)))))
+
+//@ define finwf(c: *Context, x: *Decimal): bool = wfctx(c) && wfdec(x) && x.Form == Finite
+
+//@ func Rounder.Round
+//@   props C01 C02 C07 C20
+//@   requires writable(d) && inv(x)
+//@   assigns d
+//@   hint pow10_add(c.Precision, nd10(val(x.Coeff)) - c.Precision)
+//@   hint pow10_add(c.Precision - 1, nd10(val(x.Coeff)) - c.Precision)
+//@   hint div_lt(val(x.Coeff), pow10(nd10(val(x.Coeff)) - c.Precision), pow10(c.Precision))
+//@   hint div_ge(val(x.Coeff), pow10(nd10(val(x.Coeff)) - c.Precision), pow10(c.Precision - 1))
+//@   ensures [inv] inv(d)
+//@   ensures [zero] finwf(c, old(x)) && r == c.Rounding && old(val(x.Coeff)) == 0 ==> RZero(c, old(x.Negative), old(x.Exponent), d, ret)
+//@   ensures [sub] finwf(c, old(x)) && r == c.Rounding && old(val(x.Coeff)) != 0 && old(x.Exponent) + nd10(old(val(x.Coeff))) - 1 < c.MinExponent ==> RSub(c, old(x.Negative), old(val(x.Coeff)), old(x.Exponent), d, ret)
+//@   ensures [sys] finwf(c, old(x)) && r == c.Rounding && old(val(x.Coeff)) != 0 && old(x.Exponent) + nd10(old(val(x.Coeff))) - 1 >= c.MinExponent ==> (has(ret, SystemOverflow) <==> NSYS(c, old(x.Negative), old(val(x.Coeff)), old(x.Exponent))) && !has(ret, SystemUnderflow)
+//@   ensures [ovf] finwf(c, old(x)) && r == c.Rounding && old(val(x.Coeff)) != 0 && old(x.Exponent) + nd10(old(val(x.Coeff))) - 1 >= c.MinExponent && !NSYS(c, old(x.Negative), old(val(x.Coeff)), old(x.Exponent)) && NADJ(c, old(x.Negative), old(val(x.Coeff)), old(x.Exponent)) > c.MaxExponent ==> ROvf(old(x.Negative), d, ret)
+//@   ensures [norm] finwf(c, old(x)) && r == c.Rounding && old(val(x.Coeff)) != 0 && old(x.Exponent) + nd10(old(val(x.Coeff))) - 1 >= c.MinExponent && !NSYS(c, old(x.Negative), old(val(x.Coeff)), old(x.Exponent)) && NADJ(c, old(x.Negative), old(val(x.Coeff)), old(x.Exponent)) <= c.MaxExponent ==> RNorm(c, old(x.Negative), old(val(x.Coeff)), old(x.Exponent), d, ret)
